@@ -21,7 +21,7 @@ class Contract(object):
                raises=None, loops=None, pure=None, inline=(), callbacks=(),
                asserts='prove', serves=(), mode='vc', spec=None, ghost=None,
                abstract=False, returns=None, locals_=None, assumes=(), lemmas=(),
-               exc_ensures=None, opaque_preserves=(), relate=None, note='', source=None, opaque_requires=(),
+               exc_ensures=None, opaque_preserves=(), relate=None, note='', source=None, opaque_requires=(), private=(),
                in_module=None):
     self.name = name
     self.types = dict(types or {})
@@ -50,6 +50,7 @@ class Contract(object):
     self.source = source        # ghost code (lemma): lives in the sidecar, not in /repo
     self.in_module = in_module
     self.opaque_requires = list(opaque_requires)
+    self.private = list(private)   # locals holding objects allocated here that never escape
 
   @property
   def module(self):
@@ -71,8 +72,9 @@ class Contract(object):
 
 
 class ClassInfo(object):
-  def __init__(self, name, fields=None, bases=(), properties=(), eq='identity', module=None):
+  def __init__(self, name, fields=None, bases=(), properties=(), eq='identity', module=None, pyname=None):
     self.name = name
+    self.pyname = pyname or name   # class name in the source (several modules define `Analyzer`)
     self.fields = {k: parse_type(v) for k, v in (fields or {}).items()}
     self.bases = tuple(bases)
     self.properties = set(properties)
@@ -89,6 +91,7 @@ class World(object):
     self.field_types = {}     # field name -> Ty (name-keyed fallback)
     self.pure = {}            # canonical path -> return type string
     self.enums = {}           # class name -> list of member names
+    self.macros = {}          # spec macro name -> (arg names, expression string)
     self._modules = {}
 
   def add(self, c):
@@ -101,6 +104,12 @@ class World(object):
     self.classes[ci.name] = ci
     for f, t in ci.fields.items():
       self.field_types.setdefault(f, t)
+
+  def class_for(self, module, pyname):
+    for ci in self.classes.values():
+      if ci.module == module and ci.pyname == pyname:
+        return ci.name
+    return pyname
 
   def field_type(self, cls, fname):
     seen = set()
@@ -149,11 +158,11 @@ class World(object):
       ci = self.classes.get(c)
       if ci is None or ci.module is None:
         continue
-      q = '%s.%s.%s' % (ci.module, c, meth)
+      q = '%s.%s.%s' % (ci.module, ci.pyname, meth)
       if q in self.contracts:
         return q
       mi = self.module(ci.module)
-      if mi.find('%s.%s' % (c, meth)) is not None:
+      if mi.find('%s.%s' % (ci.pyname, meth)) is not None:
         return q
     return None
 
